@@ -160,17 +160,21 @@ META4 = {
 }
 
 
+META5 = {
+}
+
 def main():
     todo = [(pid, v, m, "/tmp/mut/%s/out" % pid, v) for (pid, v), m in META.items()]
     todo += [(pid, v, m, "/tmp/mut/%sr4/out" % pid, {"G": "A", "H": "B"}[v]) for (pid, v), m in META4.items()]
+    todo += [(pid, v, m, "/tmp/mut/%sr5/out" % pid, {"G": "A", "H": "B"}[v]) for (pid, v), m in META5.items()]
     todo += [(pid, v, m, "/tmp/mut/%sr2/out" % pid, {"C": "A", "D": "B"}[v]) for (pid, v), m in META2.items()]
     todo += [(pid, v, m, "/tmp/mut/%sr3/out" % pid, {"E": "A", "F": "B"}[v]) for (pid, v), m in META3.items()]
     for pid, v, m, src, sv in todo:
         if not os.path.exists(src + "/patch%s.diff" % sv):
             continue
         dst = "/verif/seeded/%s-%s" % (pid, v)
-        if os.path.exists(dst + "/patch.diff") and v in ("A", "B", "C", "D", "E", "F"):
-            continue   # rounds 1 and 2 are saved (some patches were ported by hand afterwards)
+        if os.path.exists(dst + "/patch.diff"):
+            continue   # already saved (some patches were ported by hand afterwards)
         os.makedirs(dst, exist_ok=True)
         shutil.copy(src + "/patch%s.diff" % sv, dst + "/patch.diff")
         shutil.copy(src + "/demo%s.rs" % sv, dst + "/demo.rs")
